@@ -1096,7 +1096,27 @@ def _axis(kwargs, args, pos):
     return c
 
 
+def _half_logdet(nf):
+    """A if nf is log(diag(chol(A))) element-wise: its sum is log det(A) / 2"""
+    a = single_atom(nf) if isinstance(nf, NF) else None
+    if a is None or a.kind != "log":
+        return None
+    inner = a.args[0]
+    ia = inner if isinstance(inner, Atom) else (single_atom(inner) if isinstance(inner, NF) else None)
+    if ia is None or ia.kind != "app" or ia.args[0] != "diag":
+        return None
+    c = single_atom(ia.args[1]) if isinstance(ia.args[1], NF) else None
+    if c is not None and c.kind == "app" and c.args[0] == "chol":
+        return c.args[1]
+    return None
+
+
 def reduce_sum(ex, v: Num, axis, node):
+    if v.nf is not None and v.cond is None and v.shape is not None and len(v.shape) == 1:
+        A = _half_logdet(v.nf)
+        if A is not None:
+            # sum(log(diag(cholesky(A)))) = log det(A) / 2 for positive definite A
+            return Num(app("logabsdet", A) / 2, (), "float")
     if v.shape is None:
         return ex.mk("sum", ex.as_nf(v, node), axis if axis is not None else "all", shape=None)
     nd = len(v.shape)
@@ -1284,6 +1304,10 @@ def _np_column_stack(ex, args, kwargs, node):
 def _np_concatenate(ex, args, kwargs, node):
     v = args[0]
     if not isinstance(v, (TupleV, ListV)) or getattr(v, "opaque", False):
+        if isinstance(v, (ListV, OpaqueV)):
+            # an un-interpreted sequence of arrays: the result is un-interpreted too
+            k = valkey(v) if not isinstance(v, ListV) else (f"list#{v.lid}" + (":" + valkey(v.elem) if getattr(v, "elem", None) is not None else ""))
+            return ex.mk("concat_seq", k, shape=None, dtype=None)
         raise Undecided("concatenate of an unknown sequence", node)
     parts = [_arr(ex, x, node) for x in v.items]
     n = NF.const(0)
@@ -1592,6 +1616,37 @@ def _np_slogdet(ex, args, kwargs, node):
 def _np_inv(ex, args, kwargs, node):
     v = _arr(ex, args[0], node)
     return ex.mk("inv", v.nf, shape=v.shape, dtype="float")
+
+
+@model("numpy.atleast_1d", "numpy.atleast_2d")
+def _np_atleast(ex, args, kwargs, node):
+    v = _arr(ex, args[0], node)
+    want = 2 if "atleast_2d" in ast.unparse(node.func) else 1
+    if v.shape is None:
+        return Num(v.nf, None, v.dtype, "ndarray", arr=v.arr, cond=v.cond, meta=dict(v.meta, alias_of=v))
+    sh = tuple(v.shape)
+    while len(sh) < want:
+        sh = (NF.const(1),) + sh
+    return Num(v.nf, sh, v.dtype, "ndarray", arr=v.arr, cond=v.cond, meta=dict(v.meta, alias_of=v))
+
+
+@model("numpy.linalg.cholesky")
+def _np_cholesky(ex, args, kwargs, node):
+    # lower-triangular L with A = L @ L.T (numpy's convention)
+    v = _arr(ex, args[0], node)
+    r = ex.mk("chol", v.nf, shape=v.shape, dtype="float")
+    r.meta["chol_of"] = v
+    return r
+
+
+@model("numpy.diag")
+def _np_diag(ex, args, kwargs, node):
+    v = _arr(ex, args[0], node)
+    if v.shape is not None and len(v.shape) == 2:
+        return ex.mk("diag", v.nf, shape=(v.shape[0],), dtype=v.dtype)
+    if v.shape is not None and len(v.shape) == 1:
+        return ex.mk("diagm", v.nf, shape=(v.shape[0], v.shape[0]), dtype=v.dtype)
+    return ex.mk("diag", v.nf, shape=None, dtype=v.dtype)
 
 
 @model("numpy.linalg.eigvals")
